@@ -197,6 +197,9 @@ func GenAmountFor(t *rapid.T, p *Profile, sym string, q m.Num) *m.Amount {
 		} else {
 			a.Left = rapid.IntRange(0, 3).Draw(t, "left") == 0 && !p.off("commodity.left-code-space")
 			a.SymSpace = true
+			if a.Left && !m.NeedsQuote(sym) && !p.off("commodity.left-code-glued") && rapid.IntRange(0, 2).Draw(t, "glued") == 0 {
+				a.SymSpace = false // USD5
+			}
 		}
 		if a.Left {
 			a.SignBefore = rapid.Bool().Draw(t, "signbefore")
